@@ -44,23 +44,36 @@ def _task(args):
         return (qual, case_idx, None, traceback.format_exc())
 
 
-def run_harness(name, tier, seed, repo_root):
-    """bounded stand-in: runs harness/<name>.py under the repository's interpreter against the real code"""
+def start_harness(name, tier, seed, repo_root):
+    """bounded stand-in: starts harness/<name>.py against the real code (under the repository's interpreter; the stub
+    differential test needs z3 and runs under this interpreter); runs concurrently with the deductive tasks"""
     path = os.path.join(ROOT, "harness", name + ".py")
     env = dict(os.environ)
     env["PYTHONPATH"] = repo_root + os.pathsep + ROOT
     env["VERIF_TIER"] = tier
     env["VERIF_SEED"] = str(seed)
-    t0 = time.time()
-    p = subprocess.run([VENV_PY, path], capture_output=True, text=True, env=env, cwd=ROOT,
-                       timeout=3600 if tier == "thorough" else 900)
+    py = sys.executable if name == "stubtest" else VENV_PY
+    return (name, time.time(), subprocess.Popen([py, path], stdout=subprocess.PIPE, stderr=subprocess.PIPE, text=True, env=env, cwd=ROOT))
+
+
+def finish_harness(h, tier):
+    name, t0, p = h
     try:
-        out = json.loads(p.stdout.strip().splitlines()[-1])
+        stdout, stderr = p.communicate(timeout=3600 if tier == "thorough" else 1500)
+    except subprocess.TimeoutExpired:
+        p.kill()
+        stdout, stderr = p.communicate()
+    try:
+        out = json.loads(stdout.strip().splitlines()[-1])
     except Exception:
-        out = {"error": "harness %s produced no JSON (rc=%s): %s" % (name, p.returncode, (p.stderr or p.stdout)[-600:])}
+        out = {"error": "harness %s produced no JSON (rc=%s): %s" % (name, p.returncode, (stderr or stdout)[-600:])}
     out["wall_s"] = round(time.time() - t0, 2)
     out["name"] = name
     return out
+
+
+def run_harness(name, tier, seed, repo_root):
+    return finish_harness(start_harness(name, tier, seed, repo_root), tier)
 
 
 def main(argv=None):
@@ -113,6 +126,12 @@ def main(argv=None):
             tasks.append((qual, None, timeout_s, repo_root))
     results = []
     errors = []
+    started = []
+    for h in plan.get("harness", []):
+        try:
+            started.append(start_harness(h, tier, seed, repo_root))
+        except Exception as e:
+            started.append((h, e))
     if tasks:
         # heavy tasks first
         tasks.sort(key=lambda t: -getattr(pc.REGISTRY[t[0]], "weight", 1))
@@ -123,11 +142,14 @@ def main(argv=None):
                 else:
                     results.append((qual, k, fr))
     harness_out = []
-    for h in plan.get("harness", []):
+    for h in started:
+        if len(h) == 2:
+            harness_out.append({"name": h[0], "error": "%s: %s" % (type(h[1]).__name__, h[1])})
+            continue
         try:
-            harness_out.append(run_harness(h, tier, seed, repo_root))
+            harness_out.append(finish_harness(h, tier))
         except Exception as e:
-            harness_out.append({"name": h, "error": "%s: %s" % (type(e).__name__, e)})
+            harness_out.append({"name": h[0], "error": "%s: %s" % (type(e).__name__, e)})
     return report.finish(prop, tier, seed, plan, results, errors, harness_out, time.time() - t_start,
                          update_baseline=a.update_baseline, verbose=a.v)
 
